@@ -26,9 +26,11 @@ func (my *Flag) AddFlag(flag int64) {
 	var addr = (*int64)(my)
 
 	for {
+		verifYield(VerifSiteFlagLoad)
 		var last = atomic.LoadInt64(addr)
 		var next = last | flag
 
+		verifYield(VerifSiteFlagCas)
 		if atomic.CompareAndSwapInt64(addr, last, next) {
 			break
 		}
@@ -39,9 +41,11 @@ func (my *Flag) RemoveFlag(flag int64) {
 	var addr = (*int64)(my)
 
 	for {
+		verifYield(VerifSiteFlagLoad)
 		var last = atomic.LoadInt64(addr)
 		var next = last & ^flag
 
+		verifYield(VerifSiteFlagCas)
 		if atomic.CompareAndSwapInt64(addr, last, next) {
 			break
 		}
